@@ -185,21 +185,37 @@ Op("split", _gen_split, _impl_split,
 
 
 # ---------------------------------------------------------------------------------------------- merge
+def mk_any(kind, ms):
+    return mk_abs(ms) if kind == "abs" else mk_rel(ms)
+
+
 def _gen_merge(r):
+    """each input either through its absolute view or as a relative list (possibly ending with a rest: then its
+    absolute view carries an INTERNAL cap)"""
     k = r.choice([0, 1, 1, 2, 3])
-    return [G.gen_abs_wf(r, n=r.randint(0, 4), pitches=[60, 61], chans=[0, 0, 1]) for _ in range(k + 1)]
+    out = []
+    for _ in range(k + 1):
+        if r.random() < 0.55:
+            out.append(("abs", G.gen_abs_wf(r, n=r.randint(0, 4), pitches=[60, 61], chans=[0, 0, 1])))
+        else:
+            rel = G.gen_rel_wf(r, n=r.randint(0, 3), pitches=[60, 61], chans=[0, 0, 1], hi=40, trailing=False)
+            if r.random() < 0.7:
+                rel.append(WT(r.choice([0, 1]), r.choice([6, 24, 96, 200])))
+            out.append(("rel", rel))
+    return out
 
 
 def _impl_merge(seqs):
-    ss = [mk_abs(ms) for ms in seqs]
+    ss = [mk_any(k, ms) for k, ms in seqs]
     ss[0].merge(ss[1:])
     return show_seq(ss[0])
 
 
 def _coq_merge(seqs):
     ins = lambda ms: f"(fold_left (fun acc m => insort m acc) {lit_msgs(ms)} [])"
-    others = "[" + "; ".join(ins(ms) for ms in seqs[1:]) + "]"
-    return (f"show_res show_seq (seq_normalise (mkseq (merge_abs {ins(seqs[0])} {others}) [] false true))")
+    lit = lambda k, ms: f"(seq_of_abs {ins(ms)})" if k == "abs" else f"(seq_of_rel {lit_msgs(ms)})"
+    others = "[" + "; ".join(lit(k, ms) for k, ms in seqs[1:]) + "]"
+    return f"show_res (fun x => show_seq (fst x)) (seq_merge {lit(*seqs[0])} {others})"
 
 
 Op("merge", _gen_merge, _impl_merge, _coq_merge, lambda seqs: len(seqs) > 1)
@@ -502,11 +518,16 @@ def _impl_util(inp):
         return str(util.find_minimal_distance(e, list(l)))
     if kind == "durs":
         ub, lb = a
-        return ",".join(map(str, util.get_note_durations(ub, lb)))
+        return ",".join(map(str, util.get_note_durations(ub, lb)))      # str() keeps 24 and 24.0 apart (C11)
+    if kind == "steps":
+        ubs, lbs = a
+        return ",".join(map(str, util.get_default_step_sizes(upper_bound_shift=ubs, lower_bound_shift=lbs)))
 
 
 def _gen_util(r):
-    k = r.choice(["defaults", "vbins", "vbins", "binvel", "binvel", "fmd", "fmd", "durs"])
+    k = r.choice(["defaults", "vbins", "vbins", "binvel", "binvel", "fmd", "fmd", "durs", "steps"])
+    if k == "steps":
+        return k, (r.choice([0, 1, 2]), r.choice([0, 1, 2]))
     if k == "defaults":
         return k, None
     if k == "vbins":
@@ -529,6 +550,8 @@ def _coq_util(inp):
         return f"show_Z (bin_velocity {a[1]} (velocity_bins {a[0]}))"
     if kind == "fmd":
         return f"show_Z (find_minimal_distance {a[0]} {lit_zs(a[1])})"
+    if kind == "steps":
+        return f"show_Zs (get_default_step_sizes {a[0]} {a[1]})"
     return f"show_Zs (get_note_durations {a[0]} {a[1]} PPQN)"
 
 
@@ -554,20 +577,22 @@ def gen_cfg(r, small=True, valid_bins=False):
         (nb if flags[3] else 1)
     if size > 2500:      # keep one vocabulary small enough to be rendered inside Coq in about a second
         return gen_cfg(r, small, valid_bins)
-    return (nt, pr[0], pr[1], steps, values, nb) + flags
+    return (nt, pr[0], pr[1], steps, values, nb) + flags + (r.choice([24, 24, 24, 24, 48, 12, 15, 25]),)
 
 
 def mk_tok(cfg):
-    nt, lo, hi, steps, values, nb, run, ft, fv, fw, simp = cfg
-    return Tokeniser(num_tracks=nt, pitch_range=(lo, hi), step_sizes=list(steps) if steps else None,
+    nt, lo, hi, steps, values, nb, run, ft, fv, fw, simp = cfg[:11]
+    ppqn = cfg[11] if len(cfg) > 11 else None
+    return Tokeniser(ppqn=ppqn, num_tracks=nt, pitch_range=(lo, hi), step_sizes=list(steps) if steps else None,
                      note_values=list(values) if values else None, velocity_bins=nb, flag_running_values=run,
                      flag_fuse_track=ft, flag_fuse_value=fv, flag_fuse_velocity=fw, flag_simplify_time_signature=simp)
 
 
 def lit_cfg(cfg):
-    nt, lo, hi, steps, values, nb, run, ft, fv, fw, simp = cfg
+    nt, lo, hi, steps, values, nb, run, ft, fv, fw, simp = cfg[:11]
+    ppqn = cfg[11] if len(cfg) > 11 else 24
     o = lambda l: f"(Some {lit_zs(l)})" if l else "None"
-    return (f"(make_cfg {nt} {lo} {hi} {o(steps)} {o(values)} {nb} {lit_bool(run)} {lit_bool(ft)} {lit_bool(fv)} "
+    return (f"(make_cfg_ppqn {ppqn} {nt} {lo} {hi} {o(steps)} {o(values)} {nb} {lit_bool(run)} {lit_bool(ft)} {lit_bool(fv)} "
             f"{lit_bool(fw)} {lit_bool(simp)})")
 
 
@@ -588,7 +613,7 @@ def cfg_values(cfg):
     return sorted(cfg[4]) if cfg[4] else [4, 6, 8, 9, 12, 16, 18, 24, 36]
 
 
-def gen_piece(r, cfg, valid=True, nbars=None):
+def gen_piece(r, cfg, valid=True, nbars=None, meta_first=False):
     """tracks as relative lists + the bar grid; valid pieces satisfy the tokeniser's input constraints"""
     nt, lo, hi = cfg[0], cfg[1], cfg[2]
     steps, values = cfg_steps(cfg), cfg_values(cfg)
@@ -606,6 +631,7 @@ def gen_piece(r, cfg, valid=True, nbars=None):
         t += 96 * sig[0] // sig[1]
     total = t
     tracks = []
+    meta_track = 0 if (meta_first or r.random() < 0.6) else r.randrange(nt)     # the signature map may live in any track
     for i in range(nt):
         notes, busy = [], {}
         n = r.randint(0, 6) if total else 0
@@ -622,7 +648,7 @@ def gen_piece(r, cfg, valid=True, nbars=None):
         ms = []
         for c, p, on, d, v in notes:
             ms += [ON(c, p, v, on), OFF(c, p, on + d)]
-        if i == 0:
+        if i == meta_track:
             ms += metas
         rel = G.abs_to_rel(ms)
         dur = sum(m[2] for m in rel if m[0] == "WAIT")
@@ -721,9 +747,9 @@ def partition(r, n):
 
 def _gen_stateful(r):
     cfg = gen_cfg(r, valid_bins=True)
-    tracks = gen_piece(r, cfg, valid=True, nbars=r.randint(1, 5))
+    tracks = gen_piece(r, cfg, valid=True, nbars=r.randint(1, 5), meta_first=True)
     seed = r.randrange(1 << 30)
-    return cfg, tracks, seed
+    return cfg, tracks, seed, r.random() < 0.3          # last: call tokenise with insert_bar_token=False
 
 
 def _bars_of(tracks):
@@ -732,7 +758,8 @@ def _bars_of(tracks):
 
 
 def _impl_stateful(inp):
-    cfg, tracks, seed = inp
+    cfg, tracks, seed = inp[0], inp[1], inp[2]
+    nobar = len(inp) > 3 and inp[3]
     t = mk_tok(cfg)
     bars = _bars_of(tracks)
     nb = len(bars[0])
@@ -741,14 +768,14 @@ def _impl_stateful(inp):
     for a, b in groups:
         seqs = [Bar.to_sequence(tb[a:b]) for tb in bars]
         try:
-            toks = t.tokenise(seqs, state_dict=sd)
+            toks = t.tokenise(seqs, state_dict=sd, insert_bar_token=not nobar)
         except Exception as e:
             out += show_exc(e)
             break
         out += " ".join(toks) + "#" + show_state(sd) + "$"
     # the other side of the property: the whole piece in ONE call, without a state dictionary
     try:
-        whole = t.tokenise([Bar.to_sequence(tb) for tb in _bars_of(tracks)])
+        whole = t.tokenise([Bar.to_sequence(tb) for tb in _bars_of(tracks)], insert_bar_token=not nobar)
         out += "%" + " ".join(whole)
     except Exception as e:
         out += "%" + show_exc(e)
@@ -756,7 +783,8 @@ def _impl_stateful(inp):
 
 
 def _coq_stateful(inp):
-    cfg, tracks, seed = inp
+    cfg, tracks, seed = inp[0], inp[1], inp[2]
+    nb_ = "true" if (len(inp) > 3 and inp[3]) else "false"
     # the grouping is decided by the number of bars, which the model computes itself; the harness passes the cuts
     bars = _bars_of(tracks)
     nb = len(bars[0])
@@ -764,9 +792,9 @@ def _coq_stateful(inp):
     cuts = "[" + "; ".join(f"({a}%nat, {b}%nat)" for a, b in groups) + "]"
     return (f"(match split_bars {lit_msgss(tracks)} (to_abs {lit_msgs(tracks[0])}) true with "
             f"| Err e => \"!\" ++ show_err e "
-            f"| Ok bars => tokenise_calls {lit_cfg(cfg)} (tstate0 {lit_cfg(cfg)}) "
+            f"| Ok bars => tokenise_calls_nb {nb_} {lit_cfg(cfg)} (tstate0 {lit_cfg(cfg)}) "
             f"(map (fun ab : nat * nat => map (fun tb : list bar => concat (map b_rel (firstn (snd ab - fst ab) (skipn (fst ab) tb)))) bars) {cuts}) "
-            f"++ \"%\" ++ tokenise_ns {lit_cfg(cfg)} (map (fun tb : list bar => concat (map b_rel tb)) bars) end)")
+            f"++ \"%\" ++ tokenise_ns_nb {nb_} {lit_cfg(cfg)} (map (fun tb : list bar => concat (map b_rel tb)) bars) end)")
 
 
 Op("tok_stateful", _gen_stateful, _impl_stateful, _coq_stateful)
